@@ -178,7 +178,7 @@ var propSpecs = []PropSpec{
 			}
 		}},
 	{ID: "C03", Pkgs: []string{"."},
-		BoundsQ:     "table: the real CanContinueOnError with the three option bits symbolic, ExcludedErrors in {none, {E}}, 13 error shapes; scenarios: ProcessParallel over <=4 items and Map over <=3 items with 1-2 workers, the user function failing on one chosen item with one of 5 kinds (plain error, panic, skip, EOF, excluded), continue options on or off, preemption bound 1",
+		BoundsQ:     "table: the real CanContinueOnError with the three option bits symbolic, ExcludedErrors in {none, {E}}, 16 error shapes (incl. panics whose value carries a sentinel); scenarios: ProcessParallel over <=4 items and Map over <=3 items with 1-2 workers, the user function failing on one chosen item with one of 7 kinds (plain error, panic, skip, EOF, excluded, wrapped ErrCurrentOpAbort, panic carrying io.EOF), continue options on or off, preemption bound 1",
 		BoundsT:     "preemption bound 2",
 		Outside:     "GenerateParallel and the itertool wrappers (same classification code, not run as scenarios); two failing items; custom collectors; more workers/items",
 		Assumptions: commonAssumptions,
@@ -200,13 +200,15 @@ var propSpecs = []PropSpec{
 			}
 		}},
 	{ID: "C04", Pkgs: []string{"itertool"},
-		BoundsQ:     "11 constructs (Split, Buffer, ParallelBuffer, Map, GenerateParallel, MergeIterators, Chain, MergeSlices, MergeSliceIterators, dt.Map and adt.Map iterators) x <=2 items x every cut point x {exhaust, Close (twice), cancel, Close then cancel}; a consumer parked in ReadOne released by Close/cancel from another goroutine (4 constructs); Split(2) with one output abandoned and the other closed; preemption bound 1",
+		BoundsQ:     "11 constructs (Split, Buffer, ParallelBuffer, Map, GenerateParallel, MergeIterators, Chain, MergeSlices, MergeSliceIterators, dt.Map and adt.Map iterators) x <=2 items x every cut point x {exhaust, Close (twice), cancel, Close then cancel}; a consumer parked in ReadOne released by Close/cancel from another goroutine (4 constructs); Split(2) with one output abandoned and the other closed; ParallelBuffer/GenerateParallel with 3-4 items for 2 workers sharing the output buffer, stopped early; preemption bound 1",
 		BoundsT:     "<=3 items; preemption bound 2",
 		Outside:     "ProcessParallel as a Worker (returns only after its workers, see C01/C03); BufferedChannel (a Go channel has no Close for the consumer; covered in C02 with exhaustion); more items/workers/preemptions; 'promptly' = at quiescence",
 		Assumptions: commonAssumptions,
 		Tune: func(cfg *Config, tier, entry string) {
 			cfg.Preempt = 1
-			if tier == "thorough" {
+			if tier == "thorough" || entry == "VC04_SharedBuffer" {
+				// the shared-buffer hand-off needs two preemptions to be seen
+				// (sleep sets are applied under the bound, see DESIGN 16)
 				cfg.Preempt = 2
 			}
 		}},
@@ -228,7 +230,9 @@ var propSpecs = []PropSpec{
 		Assumptions: commonAssumptions,
 		Tune: func(cfg *Config, tier, entry string) {
 			cfg.Preempt = 1
-			if tier == "thorough" {
+			if tier == "thorough" || entry == "VC04_SharedBuffer" {
+				// the shared-buffer hand-off needs two preemptions to be seen
+				// (sleep sets are applied under the bound, see DESIGN 16)
 				cfg.Preempt = 2
 			}
 		}},
@@ -239,7 +243,9 @@ var propSpecs = []PropSpec{
 		Assumptions: commonAssumptions,
 		Tune: func(cfg *Config, tier, entry string) {
 			cfg.Preempt = 1
-			if tier == "thorough" {
+			if tier == "thorough" || entry == "VC04_SharedBuffer" {
+				// the shared-buffer hand-off needs two preemptions to be seen
+				// (sleep sets are applied under the bound, see DESIGN 16)
 				cfg.Preempt = 2
 			}
 		}},
